@@ -86,3 +86,36 @@ class PMFacts:
       if isinstance(n, ast.Raise):
         return False
     return True
+
+  def division_can_be_negative(self):
+    """(True | False | None, why): can PrettyMIDI(file).resolution be negative?  The installed mido reads the header's division
+    field with a struct format; a signed code ('h') turns an SMPTE division (high bit set) into a negative ticks_per_beat, which
+    PrettyMIDI.__init__ stores as its resolution without a sign test.  None when the sources do not have the expected shape."""
+    spec = importlib.util.find_spec('mido')
+    if spec is None or not spec.submodule_search_locations:
+      return (None, 'mido is not installed')
+    path = os.path.join(list(spec.submodule_search_locations)[0], 'midifiles', 'midifiles.py')
+    try:
+      tree = ast.parse(open(path).read())
+    except (OSError, SyntaxError) as e:
+      return (None, 'cannot parse %s: %s' % (path, e))
+    rh = next((n for n in ast.walk(tree) if isinstance(n, ast.FunctionDef) and n.name == 'read_file_header'), None)
+    fmt = None
+    for n in ast.walk(rh) if rh is not None else []:
+      if isinstance(n, ast.Call) and ast.unparse(n.func) == 'struct.unpack' and n.args and isinstance(n.args[0], ast.Constant) and isinstance(n.args[0].value, str):
+        fmt = n.args[0].value
+    if fmt is None:
+      return (None, 'mido.midifiles.read_file_header: no struct.unpack with a literal format')
+    codes = fmt.lstrip('<>!=@')
+    if len(codes) != 3:
+      return (None, 'mido.midifiles.read_file_header: unexpected header format %r' % fmt)
+    node = next(n for n in self.tree_pm.body if isinstance(n, ast.ClassDef) and n.name == 'PrettyMIDI')
+    init = next(n for n in node.body if isinstance(n, ast.FunctionDef) and n.name == '__init__')
+    stores = [n for n in ast.walk(init) if isinstance(n, ast.Assign) and any(ast.unparse(t) == 'self.resolution' for t in n.targets) and 'ticks_per_beat' in ast.unparse(n.value)]
+    guarded = any(isinstance(n, ast.If) and ('resolution' in ast.unparse(n.test) or 'ticks_per_beat' in ast.unparse(n.test)) and any(isinstance(x, ast.Raise) for x in ast.walk(n))
+                  for n in ast.walk(init))
+    if not stores:
+      return (None, 'PrettyMIDI.__init__ does not take its resolution from ticks_per_beat')
+    if codes[2] == 'h' and not guarded:
+      return (True, 'mido reads the header with struct format %r (division as a *signed* short) and PrettyMIDI.__init__ stores ticks_per_beat as resolution without a sign test' % fmt)
+    return (False, 'header format %r%s' % (fmt, ', sign tested in PrettyMIDI.__init__' if guarded else ''))
